@@ -158,10 +158,11 @@ class Gen:
         # Default (needed when the struct is the type of an added field): every field from its own Default
         if not all(defaultable(x) for x in t["ts"]):
             return ""
+        dx = [default_expr(a) for a in t["fa"]]
         if tuple_struct:
-            body = "{}({})".format(name, ", ".join("Default::default()" for _ in t["ts"]))
+            body = "{}({})".format(name, ", ".join(dx))
         else:
-            body = "{} {{ {} }}".format(name, ", ".join("f{}: Default::default()".format(i) for i in range(len(t["ts"]))))
+            body = "{} {{ {} }}".format(name, ", ".join("f{}: {}".format(i, dx[i]) for i in range(len(t["ts"]))))
         return "impl Default for {} {{ fn default() -> Self {{ {} }} }}\n".format(name, body)
 
     def enum(self, t):
@@ -213,7 +214,7 @@ class Gen:
                 "    fn to_model(&self) -> vcommon::MV {{ match self {{ {t} }} }}\n}}\n").format(n=name, f=" ".join(frm), t=" ".join(tom))
         first = t["ts"][0]
         if all(defaultable(x) for x in first["ts"]):
-            args = ", ".join("Default::default()" for _ in first["ts"])
+            args = ", ".join(default_expr(a) for a in first["fa"])
             src += "impl Default for {n} {{ fn default() -> Self {{ {n}::V0{a} }} }}\n".format(n=name, a="({})".format(args) if first["ts"] else "")
         src += "\n".join(helpers) + "\n"
         self.defs[name] = src
@@ -250,6 +251,13 @@ def big_repr(t):
     if t["s"]:
         return t["s"]
     return "u8" if t["n"] <= 256 else ("u16" if t["n"] <= 65536 else "u32")
+
+def default_expr(a):
+    if a["rm"] == "removed":
+        return "savefile::Removed::new()"
+    if a["rm"] == "abi":
+        return "savefile::AbiRemoved::new()"
+    return "Default::default()"
 
 def no_introspect(t):
     if t["k"] == "box" and t["s"] == "Cell":
